@@ -89,10 +89,6 @@ fn run(ka: usize, kb: usize) {
 }
 fn run_v(ka: usize, kb: usize, variance: Variance) {
     let mut table: InferenceTable<VI> = InferenceTable::new();
-    // Slot 0 of the lifetime arena must hold a data-carrying variant: when the first lifetime
-    // written is `'static` / erased / error, CBMC reads later slots back as nondeterministic
-    // (non-reproducing counterexamples, B17).
-    let _prime = lt(LifetimeData::Placeholder(PlaceholderIndex { ui: UniverseIndex::ROOT, idx: 0 }));
     let a = mk_side(&mut table, ka);
     let b = mk_side(&mut table, kb);
     let env = Environment::new(I);
@@ -177,7 +173,6 @@ fn run_v(ka: usize, kb: usize, variance: Variance) {
 fn ref_step(ma: Mutability, mb: Mutability, kla: usize, klb: usize) {
     let variance = sym_variance();
     let mut table: InferenceTable<VI> = InferenceTable::new();
-    let _prime = lt(LifetimeData::Placeholder(PlaceholderIndex { ui: UniverseIndex::ROOT, idx: 0 }));
     let la = mk_side(&mut table, kla);
     let lb = mk_side(&mut table, klb);
     let (i, j) = (sym::u64(), sym::u64());
@@ -250,7 +245,6 @@ fn declared_step(fn_def: bool, same_id: bool, kla: usize, klb: usize) {
     let ambient = sym_variance();
     let declared = sym_variance();
     let mut table: InferenceTable<VI> = InferenceTable::new();
-    let _prime = lt(LifetimeData::Placeholder(PlaceholderIndex { ui: UniverseIndex::ROOT, idx: 0 }));
     let la = mk_side(&mut table, kla);
     let lb = mk_side(&mut table, klb);
     let (i, j) = if same_id { (7, 7) } else { (1, 2) };
